@@ -701,14 +701,15 @@ func (i StaticInspector) Reset(x any) error {
 		p := x.([]byte)
 		x = p[:0]
 	case *[]byte:
-		p := *x.(*[]byte)
-		p = p[:0]
-		x = &p
+		if p := x.(*[]byte); p != nil {
+			*p = (*p)[:0]
+		}
 	case string:
 		x = ""
 	case *string:
-		var s string
-		x = &s
+		if p := x.(*string); p != nil {
+			*p = ""
+		}
 	}
 	return nil
 }
